@@ -29,3 +29,4 @@ def rules(ctx):
 
     S.compaction_target_rules(ctx)
     S.system_freed_store_rules(ctx)
+    S.state_writer_rules(ctx)
